@@ -19,6 +19,9 @@
           Plain case lines with such alias definitions (Driver/C09Alias.lean): the verdict is also compared with
           the declarative oracle `Spec.gfp` (greatest fixed point: an alias cycle is satisfied by every object)
           inside the fragments F1/F2 and for completeness, as in Driver/C09Seq.lean.
+  Recursive types whose recursion node is a NON-disjunct container carrying a REFINEMENT PREDICATE, on cyclic graphs
+          (Driver/C09Pred.lean; plain case lines): terminates within the work bound, same on re-run, verdict also compared
+          with `Spec.gfp` as for the alias family.  A `hang` / `timeout` answer of the harness is judged bad.
   `seq ...` : a SEQUENCE of checks on one type-check context and one object context: format, model and judge are in
           Driver/C09Seq.lean ("returns the same verdict every time it is run": no dependence on earlier checks).
 -/
@@ -27,6 +30,7 @@ import Driver.TypeCheckCodec
 import Driver.C08
 import Driver.C09Seq
 import Driver.C09Alias
+import Driver.C09Pred
 import Parsley.Spec.WorkBound
 namespace Driver.C09
 open Parsley Parsley.TC Driver Driver.TCCodec
@@ -112,6 +116,7 @@ def judge (line impl : String) : String :=
     if C08.hasEmptyDisj c.chk || c.ctx.any (fun e => C08.hasEmptyDisj e.2) then "skip" else
     let v := (words impl).headD "?"
     if v == "hang" then "bad nontermination impl=hang" else
+    if v == "timeout" then "bad timeout impl=timeout" else
     if v.startsWith "crash:" then s!"bad crash impl={v}" else
     if v != "accept" && v != "reject" then s!"bad no-verdict impl={v}" else
     if field impl "rerun=" != some "same" then "bad nondeterministic" else
@@ -122,7 +127,8 @@ def judge (line impl : String) : String :=
       if s > b then s!"bad work-bound steps={s} bound={b}" else
       -- alias family: the verdict against the declarative oracle, where a theorem of C08 says they agree
       -- (the table oracle is cubic in the number of names: contexts of at most 8 definitions)
-      if big.isNone && c.ctx.length ≤ 8 && c.ctx.any (fun e => C09Alias.isAliasDef e.2) then
+      if big.isNone && c.ctx.length ≤ 8 &&
+          c.ctx.any (fun e => C09Alias.isAliasDef e.2 || C09Pred.isPredRecDef e.2) then
         let want := if Spec.gfp c.g c.ctx c.obj c.chk then "accept" else "reject"
         if v == want then "ok"
         else if Frag.inF1 c.ctx c.chk then s!"bad alias-verdict theorem=F1 oracle={want} impl={v}"
@@ -174,6 +180,8 @@ def gen (seed n : Nat) (tier : String) (emit : String → IO Unit) : IO Unit := 
     emit l
   -- alias cycles / chains reached through every position of a Named check (Driver/C09Alias.lean)
   C09Alias.gen seed n tier emit
+  -- recursive types whose recursion node carries a refinement predicate, on cyclic graphs (Driver/C09Pred.lean)
+  C09Pred.gen seed n tier emit
   -- sequences of 2..4 checks on ONE type-check context and one object context (Driver/C09Seq.lean)
   C09Seq.gen seed n tier emit
 
